@@ -688,6 +688,21 @@ func DialerDialContext(d *net.Dialer) func(ctx context.Context, network, addr st
 	}
 }
 
+// HTTPTransport gives a transport built by fabio code without its own dialer a dialer
+// that reaches the simulated network while a simulation is live.
+func HTTPTransport(t *http.Transport) *http.Transport {
+	if t.DialContext == nil && t.Dial == nil {
+		t.DialContext = func(ctx context.Context, network, addr string) (net.Conn, error) {
+			if s := cur.Load(); s != nil && s.Dial != nil {
+				return s.Dial(ctx, network, addr, 0, -1)
+			}
+			var d net.Dialer
+			return d.DialContext(ctx, network, addr)
+		}
+	}
+	return t
+}
+
 func NetListen(network, addr string) (net.Listener, error) {
 	if s := cur.Load(); s != nil && s.Listen != nil {
 		return s.Listen(network, addr)
